@@ -55,6 +55,8 @@ def pmap(fn, items, procs=None, chunk=None):
         ctx = mp.get_context("fork")
         with ctx.Pool(procs) as pool:
             out = pool.map(_call, items, chunksize=chunk or max(1, len(items) // (procs * 8)))
+            pool.close()
+            pool.join()
     for a, r in zip(items, out):
         if isinstance(r, tuple) and len(r) == 3 and r[0] == "__exc__":
             if r[2]:
